@@ -143,4 +143,3 @@ func (h *harness) linksStream() {
 		h.opLinks(strings.Join(ks, "."), how)
 	}
 }
-
